@@ -2,6 +2,7 @@ import VpnCloud.Model.PeerCrypto
 import Driver.Sha256
 import Driver.CoreSuite
 import Driver.CodecSuite
+import VpnCloud.Model.AlgoNames
 /-
   Driver glue for the suite `init`: real `PeerCrypto` objects next to the byte-level model.
   Random choices of the implementation (salts, ephemeral public keys, start values of counters,
@@ -61,6 +62,10 @@ def mutateBytes (d : Bytes) (m : String) : Option Bytes :=
   else if m.startsWith "app=" then do
     let b ← Bytes.ofHex (m.drop 4).toString
     pure (d ++ b)
+  else if m.startsWith "endhex=" then do
+    -- overwrite the last bytes (a signature, an authentication tag) with the given ones
+    let b ← Bytes.ofHex (m.drop 7).toString
+    pure (if b.length ≤ d.length then d.take (d.length - b.length) ++ b else d)
   else none
 
 /-! ### observation parsing -/
@@ -201,8 +206,21 @@ def initStep (st : ISt) (t : List String) (implObs : String) : Option (ISt × St
       let trusted0 := if tr = "-" then [] else (tr.splitOn ",").filterMap (fun (x : String) => x.toNat?.bind (fun i => keys[i]?))
       let key := keys.getD ki []
       let trusted := if trusted0.isEmpty then [key] else trusted0
-      let p : IParty := { key, trusted, algos := { speeds := [], allowUnencrypted := true }, nodeId }
-      some ({ st with parties := setS st.parties name p }, "ok", "-")
+      match kvField fs "algos" with
+      | none =>
+        let p : IParty := { key, trusted, algos := { speeds := [], allowUnencrypted := true }, nodeId }
+        some ({ st with parties := setS st.parties name p }, "ok", "-")
+      | some names =>
+        -- the configured cipher names go through the model of `Crypto::parse_algorithms`; the measured speeds are observed
+        match parseAlgorithms (if names = "default" then [] else names.splitOn ",") with
+        | none => some (st, "err", "-")
+        | some (plain, ciphers) =>
+          let observed := ((field implObs "algos").bind parseAlgos).getD { speeds := [], allowUnencrypted := false }
+          let speeds := ciphers.zipIdx.map (fun (c, i) => (c, ((observed.speeds[i]?).map (·.2)).getD 0))
+          let algos : Algos := { speeds, allowUnencrypted := plain }
+          let parts := (if plain then ["plain"] else []) ++ speeds.map (fun (c, v) => s!"{c.wireId}:{Bytes.toHex (Bytes.ofBE 4 v)}")
+          let p : IParty := { key, trusted, algos, nodeId }
+          some ({ st with parties := setS st.parties name p }, s!"ok algos={if parts.isEmpty then "-" else ",".intercalate parts}", "-")
     | _, _, _ => some (st, "bad-op", "-")
   | "iparty" :: name :: fs =>
     match (kvField fs "key").bind String.toNat?, kvField fs "trust", (kvField fs "algos").bind parseAlgos, (kvField fs "id").bind Bytes.ofHex with
